@@ -313,6 +313,39 @@ theorem Unwrap.nf_eq {t t' : Val} (h : Unwrap t t') : nf t = nf t' := by
   | inStk f c pre post x x' _ ih => simp [nf, nfL, nfL_append, ih]
   | inCnd f c kw op ex ex' _ ih => simp [nf, ih]
 
+/-- removing a redundant wrapper in element position is a legal step -/
+theorem ERel.peel (x : Val) : ERel x (peel x) := by
+  unfold Tree.peel
+  split
+  · rename_i f c ch
+    split
+    · rename_i h
+      simp only [Bool.and_eq_true] at h
+      exact ERel.unwrap f c ch h.1 h.2
+    · exact ERel.refl _
+  · exact ERel.refl _
+
+mutual
+/-- `nf t` is reached from `t` by legal steps: it is a fully unwrapped *form of `t`* -/
+theorem nf_star : ∀ (t : Val), UnwrapStar t (nf t)
+  | .nil => by simp only [nf]; exact .refl _
+  | .leaf l => by simp only [nf]; exact .refl _
+  | .zstk f => by simp only [nf]; exact .refl _
+  | .zcnd f => by simp only [nf]; exact .refl _
+  | .anys xs => by simp only [nf]; exact .refl _
+  | .stk f c xs => by
+      simp only [nf]
+      exact (UnwrapStar.single (.native f c xs)).trans (star_stk_of_forall₂ .native c xs (nfL xs) (nfL_all₂ xs))
+  | .cnd f c kw op ex => by
+      simp only [nf]
+      exact (nf_star ex).inCnd f c kw op
+theorem nfL_all₂ : ∀ (xs : List Val), All₂ ERel xs (nfL xs)
+  | [] => by simp only [nfL]; exact .nil
+  | x :: xs => by
+      simp only [nfL]
+      exact .cons ((ERel.of_star (nf_star x)).trans (ERel.peel (nf x))) (nfL_all₂ xs)
+end
+
 /-! ## The closure inherits all of it -/
 
 theorem UnwrapStar.leaves_eq {t t' : Val} (h : UnwrapStar t t') : leaves t = leaves t' := by
@@ -334,6 +367,12 @@ theorem UnwrapStar.nf_eq {t t' : Val} (h : UnwrapStar t t') : nf t = nf t' := by
   induction h with
   | refl => rfl
   | step s _ ih => rw [s.nf_eq, ih]
+
+/-- `nf` decides joinability: two trees have the same normal form iff some tree is reachable from both -/
+theorem nf_eq_iff_joinable (a b : Val) : nf a = nf b ↔ ∃ c, UnwrapStar a c ∧ UnwrapStar b c := by
+  constructor
+  · intro h; exact ⟨nf a, nf_star a, h ▸ nf_star b⟩
+  · rintro ⟨c, h1, h2⟩; rw [h1.nf_eq, h2.nf_eq]
 
 /-! ## Deciding reachability -/
 
